@@ -12,10 +12,18 @@ package hpack
 //                    reference rejects (bad index, bad Huffman, oversize / misplaced table update, string too long,
 //                    truncated block at Close), same dynamic table. Limits asserted after every call. Every implicit
 //                    Go panic on every path is checked by the engine ("never panics").
-//   VerifC02_strings (shape B) same oracle on a template block: one literal field whose two string-length bytes
-//                    (incl. the Huffman bit) are symbolic over concrete content, symbolic max string length.
+//   VerifC02_strings (shape B) same oracle on a template block: one literal field with concrete strings of 0..2 / 0..5
+//                    characters, raw or Huffman coded, against a symbolic max string length.
 //
-// Sensitivity (mut.sh, quick tier): see the end of this comment block; filled in after running.
+// Sensitivity (mut.sh, quick tier), all caught:
+//   hpack.go readString `strLen > uint64(d.maxStrLen)` -> `>=`            VerifC02_strings (error iff reference rejects)
+//   hpack.go readVarInt `if m >= 63` -> `m >= 70`                         VerifC02_varint (consumes 1..10 bytes)
+//   hpack.go size update `size > allowedMaxSize` -> `> allowedMaxSize+1`  VerifC02_decode (error iff reference rejects)
+//   hpack.go at() `i > maxTableIndex()` -> `> maxTableIndex()+1`          VerifC02_decode (index out of range panic)
+//
+// Not covered: SetEmitEnabled(false) (strings of non-indexed literals are then not decoded at all, so Huffman errors
+// in them are ignored by design); inputs longer than the bounds; the saveBuf bound is asserted but cannot be
+// approached by inputs this short.
 
 func init() {
 	vfRegister("VerifC02_varint", VerifC02_varint)
@@ -406,36 +414,45 @@ func (r *c02run) blockBoth(p []byte) bool {
 }
 
 // c02allowed restricts index-bearing byte patterns to boundary indices (every static-table entry is a separate
-// path; the full range is covered by the 1- and 2-byte runs):
-//   1xxxxxxx index in {0,1,2,61,62,63,64,127}; 01xxxxxx index in {0,1,2,61,62,63}; 001xxxxx any;
-//   000?xxxx index in {0,1,2,15}
+// path; the full index range is covered by the first byte of the 1- and 2-byte runs):
+//   1xxxxxxx index in {0,1,61,62,63,127}; 01xxxxxx index in {0,1,62,63}; 001xxxxx any; 000?xxxx index in {0,1,15}
+// (61 = last static entry, 62/63 = the two preloaded dynamic entries, 127/63/15 = prefix mask: multi-byte integer)
 func c02allowed(b byte) bool {
 	i7, i6, i4 := b&0x7f, b&0x3f, b&0x0f
-	ok7 := vfOr(i7 <= 2, vfOr(vfAnd(i7 >= 61, i7 <= 64), i7 == 127))
-	ok6 := vfOr(i6 <= 2, vfAnd(i6 >= 61, i6 <= 63))
-	ok4 := vfOr(i4 <= 2, i4 == 15)
+	ok7 := vfOr(i7 <= 1, vfOr(vfAnd(i7 >= 61, i7 <= 63), i7 == 127))
+	ok6 := vfOr(i6 <= 1, i6 >= 62)
+	ok4 := vfOr(i4 <= 1, i4 == 15)
 	return vfOr(vfAnd(b >= 0x80, ok7), vfOr(vfAnd(vfAnd(b >= 0x40, b < 0x80), ok6), vfOr(vfAnd(b >= 0x20, b < 0x40), vfAnd(b < 0x20, ok4))))
 }
 
 func VerifC02_decode() {
-	nmax := 3
+	// Input: n symbolic bytes cut into two header blocks data[:k], data[k:] (k = 0: one block; every k).
+	//   "wide" runs:   n = 1: any byte; n = 2: any first byte, second byte restricted by c02allowed;
+	//                  preload 0 or 2 entries, max string length 0 (unlimited) or 1, symbolic table / allowed size
+	//   "narrow" runs: n = 3 (thorough also 4), every byte restricted by c02allowed; 2 preloaded entries,
+	//                  unlimited string length, symbolic table / allowed size
+	// thorough: n = 3 is a wide run.
+	nmax, wideMax := 3, 2
 	if vfTier() > 0 {
-		nmax = 4
+		nmax, wideMax = 4, 3
 	}
 	n := vfLen("n", 1, nmax)
 	data := vfBytes("data", n)
-	if n > 2 {
-		for _, b := range data {
+	for i, b := range data {
+		if n > 2 || (n == 2 && i == 1) {
 			vfAssume(c02allowed(b))
 		}
 	}
 	m0, a := vfU32("tablesize"), vfU32("allowed")
-	maxStr := vfRange("maxstr", 0, 1<<30)
-	r := c02new(m0, 2*vfChoice("preload", 2))
+	preload, maxStr := 2, 0
+	if n <= wideMax {
+		preload = 2 * vfChoice("preload", 2)
+		maxStr = vfChoice("maxstr", 2)
+	}
+	r := c02new(m0, preload)
 	r.config(a, maxStr)
 	r.limits()
 
-	// two header blocks: data[:k] and data[k:] (k = 0: one block)
 	k := vfChoice("cut", n)
 	okSoFar := true
 	if k > 0 {
@@ -446,6 +463,9 @@ func VerifC02_decode() {
 	}
 	if r.trunc {
 		vfReach("truncated")
+	}
+	if len(r.d.dynTab.table.ents) > preload {
+		vfReach("table-grew")
 	}
 	vfObserve("nfields", uint64(len(r.got)))
 	vfObserve("tablesize", uint64(r.d.dynTab.size))
